@@ -21,8 +21,9 @@ FOCI = {
 # the literal spellings of the atoms focus are the subject of C09 / C14 / C16, not of the grammar
 OVERRIDES = {"atoms": dict(IntLits="<- IntLits_two", CharLits="<- CharLits_one", StrLits="<- StrLits_one", PrimTypes=["u8", "bool"],
                                  Builtins=["print", "abort"], Addrs=g.nset([0, 2]), CmpOps=["==", "<="], Files="<- Files_one")}
-# not run in the quick tier: operator spellings and long argument lists add no token class and no grammar position
-QUICK_SKIP = {"ops", "args"}
+# not run in the quick tier: operator spellings, long lists, cast and else-if chains add no token class and no grammar position
+# (every kind of syntax node still occurs: vacuity guard NODE_TAGS of checks/syntax_part.py)
+QUICK_SKIP = {"ops", "args", "casts", "elseif", "long"}
 # derives only modules the recogniser must call `unc` (|&x|): checked with its own invariant
 UNC_FOCI = {"undoc"}
 
